@@ -60,6 +60,20 @@ class Env:
         return ("exc", "MissingState")
 
 
+def record_sites(program: list[dict[str, Any]], env: Env | None = None, out: dict[int, str | None] | None = None) -> dict[int, str | None]:
+    """record id -> name of the lexically innermost scope (inherited through spawns), None outside every scope"""
+    env = env or Env()
+    out = {} if out is None else out
+    for step in program:
+        if step["op"] == "record":
+            out[step["id"]] = env.scope
+        elif step["op"] == "block":
+            record_sites(step["body"], env.push(step), out)
+        elif step["op"] == "spawn":
+            record_sites(step["body"], env, out)
+    return out
+
+
 def expected(program: list[dict[str, Any]], env: Env | None = None, out: dict[int, dict[str, Any]] | None = None) -> dict[int, dict[str, Any]]:
     env = env or Env()
     out = {} if out is None else out
@@ -383,6 +397,19 @@ async def run_steps(W: World, steps: list[dict[str, Any]], rng: random.Random | 
                 raise
         elif op == "mark":
             W.event("mark", step.get("tag"))
+        elif op == "record":
+            from hv.gen import metricsfam
+
+            m = metricsfam.make(step["type"], step["id"])
+            fn = metricsfam.merge_fn(step.get("merge", "default"))
+            W.event("record", step["id"], step["type"], step.get("merge", "default"))
+            try:
+                if fn is None:
+                    ctx.record(m)
+                else:
+                    ctx.record(m, merge=fn)
+            except BaseException as exc:  # noqa: BLE001
+                W.event("record-raised", step["id"], repr(exc))
         else:
             raise ValueError(f"unknown step {op}")
 
